@@ -339,3 +339,20 @@ package parse
 //@   ensures tokWF(t) && tcur(t) >= old(tcur(t)) && result == chanitem(t.lex.items, tcur(t)) && result.typ != itemSep
 //@   ensures forall(k, old(tcur(t)), tcur(t), chanitem(t.lex.items, k).typ == itemSep)
 //@   loop 0 invariant tokWF(t) && tcur(t) >= old(tcur(t)) && t.lex == old(t.lex) && forall(k, old(tcur(t)), tcur(t), chanitem(t.lex.items, k).typ == itemSep)
+
+// ---------------------------------------------------------------------------
+// Double-quoted strings (C08, RFC 6020 6.1.3): continuation lines lose their indentation up to the column
+// of the opening quote, a tab counting as 8 columns; an over-long tab is replaced by the missing blanks.
+//@ define isBlank(c) = c == ' ' || c == '\t'
+//@ func trimLeadWS
+//@   requires trimLen >= 0
+//@   nopanic
+//@   ensures implies(len(s) >= 1 && !isBlank(s[0]), result == s)
+//@   ensures implies(trimLen >= 1 && len(s) >= trimLen && forall(k, 0, trimLen, s[k] == ' '), result == s[trimLen:])
+//@   ensures implies(len(s) >= 1 && s[0] == '\t' && 1 <= trimLen && trimLen <= 8, result == "        "[:8-trimLen] + s[1:])
+//@   ensures implies(trimLen >= 2 && len(s) >= 2 && s[0] == ' ' && !isBlank(s[1]), result == s[1:])
+//@   ensures len(result) <= len(s) + 7
+//@   loop 0 invariant 0 <= looppos && looppos <= len(s) && 0 <= wsCount && wsCount <= 8*looppos && (wsCount < trimLen || looppos == 0)
+//@   loop 0 invariant iff(wsCount == 0, looppos == 0) && forall(k, 0, looppos, isBlank(s[k]))
+//@   loop 0 invariant wsCount >= looppos && (wsCount == looppos || exists(k, 0, looppos, s[k] == '\t'))
+//@   loop 0 invariant implies(looppos >= 1 && s[0] == '\t', wsCount >= 8)
